@@ -21,7 +21,7 @@ func init() {
 	Register(&Prop{
 		ID:    "C01",
 		Title: "No storage reward or prover status without a valid proof of the challenged chunk",
-		Cases: func(t string) int { return tierN(t, 160, 2400) },
+		Cases: func(t string) int { return tierN(t, 160, 20000) },
 		Run:   runC01,
 		Rule: "case = one history: 1-2 files of 1-40 chunks (chunk size 1/16/1024, replication 1-4), 2 honest and 2-3 dishonest accounts, 10-24 proof submissions drawn from 14 payload classes (honest control + 13 mutation classes), every submission followed by reward blocks with live gauges; " +
 			"oracle per submission: reference verifier (independent Merkle/leaf implementation + challenge read through the Proof query just before) says invalid => (File.Proofs, all ProofsByAddress(signer), signer balance) digest unchanged and Success=false; per reward block: hooked counted bytes of every prover <= bytes of files it has validly proven at least once and <= bytes of files whose last accepted valid proof (by the monitor's own record) lies in the previous full window or later, storage-module payees subset of validly-proven provers; " +
